@@ -19,6 +19,7 @@ def decode_compact(c: Int):
 def encode_compact(v: Int, *, n: Int):
     """canonical form, sign bit never set, decodes to the 3-byte truncation"""
     requires(0 <= v and v < 2**256)
+    requires(0 <= n and n <= 33)
     split(n, 0, 34)
     requires(ssize(v, n))
     autosplit(0, 257)
